@@ -5,7 +5,9 @@ mesh (rectilinear / simplex / product, refined or not), a polynomial geometry ma
 operators the way nutils does (root derivative R = DG B, inverse / Gram pseudo inverse, Orthonormal of the pushed edge
 exterior vector, Gram determinant, exact Newton-Cotes / Duffy quadrature).  Its invariants are the defining identities of
 the property (gradient of p(X) is p'(X), surface gradient is the projection, normals orthogonal / outward / opposite on
-interfaces, divergence theorem per element and per mesh, refinement preserves integrals).
+interfaces, divergence theorem per element and per mesh, refinement preserves integrals; fields that live on the boundary
+topology -- Gram pseudo inverse of the linear part of the boundary chain -- have the tangential derivative of p; on product
+topologies the root derivative is the concatenation of one block per space).
 
 Binding to the code:
  S->C  every evaluation state of the model (mesh, level, geometry, field, interior | boundary | interfaces | integrals)
@@ -13,7 +15,10 @@ Binding to the code:
        nutils.function, and grad / div / curl / laplace / symgrad / surfgrad / J / normal / exterior normal / per-space
        gradients / the integrals of the divergence theorem are evaluated on the corresponding samples and compared with
        the state that the model predicts, point by point (points are identified by the vertex sets of their element /
-       facet and their base coordinate, so the element and edge numbering of nutils plays no role).
+       facet and their base coordinate, so the element and edge numbering of nutils plays no role).  Boundary-field states
+       are replayed with fields built from topo.boundary.f_coords / f_index (and a topo.boundary.basis on simplex meshes);
+       product states on products of two / three topologies in different spaces; on refined meshes the geometry is
+       additionally represented in a basis of the unrefined topology (independence of refinement).
  T     the edge transforms of every reference element and the transform chains of all boundary / interface elements of
        the real topologies (TransformBasis: linear part + Updim.ext) are exported and TLC decides (spec/MCGeometry.tla)
        that the tangent columns span the facet and that ext points out of the element.
@@ -29,19 +34,22 @@ from .. import exprs, tlc
 
 LEVEL = 'model_checking'
 
-NGEOMS = 21
+NGEOMS = 23
 NFIELDS = 15
 GEOM_DIMS = {i: (1, 1) for i in (1, 2, 3, 4)}
 GEOM_DIMS.update({i: (2, 2) for i in (5, 6, 7, 8, 9, 10)})
-GEOM_DIMS.update({i: (3, 3) for i in (11, 12, 13, 14, 15)})
+GEOM_DIMS.update({i: (3, 3) for i in (11, 12, 13, 14, 15, 22, 23)})
 GEOM_DIMS.update({i: (1, 2) for i in (16, 17, 18)})
 GEOM_DIMS.update({i: (2, 3) for i in (19, 20, 21)})
 FIELD_N = {1: 1, 2: 1, 3: 1, 4: 2, 5: 2, 6: 2, 7: 2, 8: 2, 9: 2, 10: 2, 11: 3, 12: 3, 13: 3, 14: 3, 15: 3}
 VECTOR_FIELDS = {2, 3, 7, 8, 9, 10, 13, 14, 15}
-MESH_DIM = dict(line=1, rect=2, prod=2, tri=2, box=3, tet=3)
-ACTIONS = ['Refine', 'SetGeom', 'SetField', 'EvalInterior', 'EvalBoundary', 'EvalInterfaces', 'Integrate', 'RefineIntegrals']
+MESH_DIM = dict(line=1, rect=2, prod=2, tri=2, box=3, tet=3, prod3=3, prodm=3)
+PRODUCTS = {'prod': (('X', 1), ('Y', 1)), 'prod3': (('X', 1), ('Y', 1), ('Z', 1)), 'prodm': (('X', 2), ('Z', 1))}
+STRUCTURED = {'line', 'rect', 'box', 'prod', 'prod3', 'prodm'}
+ACTIONS = ['Refine', 'SetGeom', 'SetField', 'EvalInterior', 'EvalBoundary', 'EvalInterfaces', 'EvalBoundaryField', 'Integrate', 'RefineIntegrals']
 INVARIANTS = ['TypeOK', 'GradIsDerivative', 'SurfGradProjects', 'SurfGradBoundary', 'MeasureIsGram', 'NormalOrthogonal', 'NormalOutward',
-              'NormalRoutes', 'ExteriorOrthogonal', 'InterfaceOpposite', 'DivTheoremElem', 'DivTheoremMesh', 'VolumePositive', 'PerSpace']
+              'NormalRoutes', 'ExteriorOrthogonal', 'InterfaceOpposite', 'DivTheoremElem', 'DivTheoremMesh', 'VolumePositive', 'PerSpace',
+              'ProductGradient', 'BoundaryFieldTangential', 'BoundarySurfGrad']
 
 RTOL = 2e-10
 
@@ -64,6 +72,17 @@ def build_mesh(name, level):
         ty, gy = mesh.rectilinear([[0, 1, 3]], space='Y')
         topo = tx * ty
         x0 = numpy.stack([gx[0], gy[0]])
+    elif name == 'prod3':
+        tx, gx = mesh.rectilinear([[0, 1]], space='X')
+        ty, gy = mesh.rectilinear([[0, 2]], space='Y')
+        tz, gz = mesh.rectilinear([[0, 1, 3]], space='Z')
+        topo = tx * ty * tz
+        x0 = numpy.stack([gx[0], gy[0], gz[0]])
+    elif name == 'prodm':
+        tx, gx = mesh.rectilinear([[0, 1, 3], [0, 2]], space='X')
+        tz, gz = mesh.rectilinear([[0, 1]], space='Z')
+        topo = tx * tz
+        x0 = numpy.concatenate([gx, gz])
     elif name == 'tri':
         nodes = numpy.array([[0, 1, 2], [1, 2, 3], [2, 3, 4]])
         coords = numpy.array([[0., 0], [2, 0], [0, 1], [2, 2], [0, 3]])
@@ -76,7 +95,7 @@ def build_mesh(name, level):
         raise ValueError(name)
     for _ in range(level):
         topo = topo.refined
-    return topo, x0, (('X', 'Y') if name == 'prod' else None)
+    return topo, x0, (tuple(sp for sp, d in PRODUCTS[name]) if name in PRODUCTS else None)
 
 
 def poly(P, x):
@@ -148,6 +167,9 @@ def replay_group(item):
 
     def fail(op, what, **data):
         key = '{}:{}:{}'.format(op, stage, name)
+        if op.startswith('coarse-geometry'):
+            # one root cause whatever the sample: a function of a coarser topology differentiated on a finer one
+            key = '{}:{}'.format(op, 'structured' if name in STRUCTURED else 'simplex')
         if not any(k == key for k, _, _ in out['fails']):
             out['fails'].append((key, 'mesh {} level {} geometry {} field {}: {}'.format(name, level, s0['geom'], data.get('field', '-'), what),
                                  dict(mesh=name, level=level, geom=s0['geom'], G=s0['G'], stage=stage, **data)))
@@ -177,6 +199,12 @@ def _replay(name, level, stage, snaps, out, fail):
     m, n = s0['m'], s0['n']
     K = s0['lattice']
     topo, x0, spaces = build_mesh(name, level)
+    spcols = []
+    for d in s0['sp']:
+        start = spcols[-1].stop if spcols else 0
+        spcols.append(slice(start, start + d))
+    if spaces and [d for sp, d in PRODUCTS[name]] != list(s0['sp']):
+        raise RuntimeError('space dimensions of the model and of the harness mesh differ')
     G = numpy.stack([poly(P, x0) for P in s0['G']])
     fields = [numpy.stack([poly(P, G) for P in s['P']]) for s in snaps]
     isvec = [s['kind'] == 'v' and len(s['P']) == n for s in snaps]
@@ -195,13 +223,22 @@ def _replay(name, level, stage, snaps, out, fail):
         raise Fail('mesh-binding', 'the elements of the real topology ({}) differ from the elements of the model mesh ({})'.format(len(evs), len(model_elems)),
                    dict(only_code=sorted(map(sorted, set(evs) - model_elems))[:3], only_model=sorted(map(sorted, model_elems - set(evs)))[:3]))
 
+    # ---- independence of refinement: on a refined mesh the same geometry is also represented in a basis of the UNREFINED
+    # topology (a discrete geometry that lives on the coarse mesh, evaluated / integrated on the fine one)
+    Gh = None
+    if level > 0 and n == m and name not in PRODUCTS and stage != 'bfield':
+        topo0 = build_mesh(name, 0)[0]
+        basis0 = topo0.basis('std', degree=2)
+        with _quiet():
+            Gh = numpy.stack([basis0 @ topo0.project(Gi, onto=basis0, geometry=x0, degree=4) for Gi in G])
+
     if stage == 'integrals':
-        _replay_integrals(name, topo, x0, G, fields, isvec, snaps, evs, out, fail, n)
+        _replay_integrals(name, topo, x0, G, fields, isvec, snaps, evs, out, fail, n, Gh)
         return
 
     if stage == 'interior':
         dom = topo
-    elif stage == 'boundary':
+    elif stage in ('boundary', 'bfield'):
         dom = topo.boundary
     else:
         dom = topo.interfaces
@@ -212,6 +249,16 @@ def _replay(name, level, stage, snaps, out, fail):
 
     # ---- what is evaluated
     funcs = dict(x0=x0, X=G)
+    if stage == 'bfield':
+        _replay_bfield(name, level, dom, smp, fsmp, x0, G, fields, snaps, evs, out, fail, m, n)
+        return
+    if Gh is not None:
+        funcs['Xh'] = Gh
+        funcs['Jh'] = function.J(Gh)
+        if stage == 'interior':
+            funcs['gh'] = function.grad(poly(s0['P'][0], Gh), Gh)
+        else:
+            funcs['nrmh'] = function.normal(Gh)
     if n == m or stage != 'interior':
         funcs['J'] = function.J(G)
     else:
@@ -244,12 +291,12 @@ def _replay(name, level, stage, snaps, out, fail):
                 funcs['ngrad', k] = function.ngrad(f, G)
                 funcs['tan', k] = function.tangent(G, f)
                 funcs['dotn', k] = function.dotnorm(f, G)
-        if spaces and s0['sep'] and stage == 'interior':
-            for a, sp in enumerate(spaces):
-                funcs['gs', k, a] = function.grad(f, G[a:a + 1], spaces=[sp])
-    if spaces and s0['sep'] and stage == 'interior':
-        for a, sp in enumerate(spaces):
-            funcs['js', a] = function.J(G[a:a + 1], spaces=[sp])
+        if s0['sepon'] and stage == 'interior':
+            for a, (sp, sl) in enumerate(zip(spaces, spcols)):
+                funcs['gs', k, a] = function.grad(f, G[sl], spaces=[sp])
+    if s0['sepon'] and stage == 'interior':
+        for a, (sp, sl) in enumerate(zip(spaces, spcols)):
+            funcs['js', a] = function.J(G[sl], spaces=[sp])
     names = list(funcs)
     vals = dict(zip(names, exprs.with_timeout(120, smp.eval, [funcs[k] for k in names])))
     fx0 = fsmp.eval(x0)
@@ -329,15 +376,20 @@ def _replay(name, level, stage, snaps, out, fail):
                     cmp('symgrad', vals['sym', k][ip], .5 * (g + g.T))
                 if ('cu', k) in vals:
                     cmp('curl', vals['cu', k][ip], fl(r['cu']) if 'cu' in r else numpy.array([g[2, 1] - g[1, 2], g[0, 2] - g[2, 0], g[1, 0] - g[0, 1]]))
-                for a in range(m):
+                for a, sl in enumerate(spcols):
                     if ('gs', k, a) in vals:
-                        cmp('grad-per-space', vals['gs', k, a][ip][:, 0], flm(r['gs'])[:, a])
+                        cmp('grad-per-space', vals['gs', k, a][ip], flm(r['gs'])[:, sl])
                 j2 = float(fr(r['j2']))
                 if k == 0:
                     cmp('J', vals['J'][ip] ** 2, j2, scale=j2)
-                    for a in range(m):
+                    for a in range(len(spcols)):
                         if ('js', a) in vals:
                             cmp('J-per-space', vals['js', a][ip] ** 2, float(fr(r['js'][a])))
+                    if Gh is not None:
+                        cmp('coarse-geometry', vals['Xh'][ip], fl(r['X']))
+                        cmp('coarse-geometry-J', vals['Jh'][ip] ** 2, j2, scale=j2)
+                        if 'gh' in vals:
+                            cmp('coarse-geometry-grad', vals['gh'][ip], g[0])
                 if stage == 'interior' and n == m + 1 and k == 0:
                     nv = fl(r['nx'])
                     nx = vals['nx'][ip]
@@ -352,6 +404,8 @@ def _replay(name, level, stage, snaps, out, fail):
                     if k == 0:
                         cmp('normal-unit', numpy.linalg.norm(nrm), 1.)
                         cmp('normal', nrm, unit)
+                        if 'nrmh' in vals:
+                            cmp('coarse-geometry-normal', vals['nrmh'][ip], unit)
                         if n == m:
                             cmp('normal*J', nrm * vals['J'][ip], nv, scale=float(numpy.abs(nv).max()))
                         if stage == 'interfaces':
@@ -377,13 +431,118 @@ def _replay(name, level, stage, snaps, out, fail):
             raise Fail('x0', 'nutils evaluates {} of the {} interface rows of the model (expected one side of each)'.format(len(t) - len(missing), len(t)), dict(field=snaps[k]['field']))
 
 
-def _replay_integrals(name, topo, x0, G, fields, isvec, snaps, evs, out, fail, n):
+def _quiet():
+    import treelog
+    return treelog.set(treelog.NullLog())
+
+
+def _replay_bfield(name, level, bnd, smp, fsmp, x0, G, fields, snaps, evs, out, fail, m, n):
+    """fields that live on the boundary topology: functions of bnd.f_coords / bnd.f_index (and bnd.basis on simplex meshes)"""
+    import numpy
+    from nutils import function
+    s0 = snaps[0]
+    # the base coordinates as a function of the boundary topology: x0 = a[ielem] + A[ielem] eta (fitted per boundary element)
+    eta, idx = bnd.f_coords, bnd.f_index
+    vx, ve, vi = fsmp.eval([x0, eta, idx])
+    a = numpy.zeros((len(bnd), m))
+    A = numpy.zeros((len(bnd), m, m - 1))
+    hit = set()
+    for ie in range(fsmp.nelems):
+        ii = fsmp.getindex(ie)
+        M = numpy.concatenate([numpy.ones((len(ii), 1)), ve[ii]], axis=1)
+        sol = numpy.linalg.lstsq(M, vx[ii], rcond=None)[0]
+        if not numpy.allclose(M @ sol, vx[ii], atol=1e-12):
+            raise Fail('x0', 'the base geometry is not affine on boundary element {}'.format(ie))
+        k = int(vi[ii[0]])
+        if k in hit or any(int(j) != k for j in vi[ii]):
+            raise Fail('f_index', 'boundary.f_index is not a numbering of the boundary elements')
+        hit.add(k)
+        a[k] = sol[0]
+        A[k] = sol[1:].T
+    if hit != set(range(len(bnd))):
+        raise Fail('f_index', 'boundary.f_index is not a numbering of the boundary elements')
+    x0b = function.get(a, 0, idx) + function.get(A, 0, idx) @ eta
+    Gb = numpy.stack([poly(P, x0b) for P in s0['G']])
+    bfields = [numpy.stack([poly(P, Gb) for P in s['P']]) for s in snaps]
+    nrm = function.normal(G)
+    funcs = dict(x0=x0, X=G, x0b=x0b, nrm=nrm, J=function.J(G))
+    simplex_basis = None
+    if name in ('tri', 'tet') and max(s['degfg'] for s in snaps) <= 2:
+        simplex_basis = bnd.basis('std', degree=2)
+    for k, (f, fb) in enumerate(zip(fields, bfields)):
+        funcs['f', k] = fb
+        funcs['g', k] = function.grad(fb, G)
+        funcs['sg', k] = function.surfgrad(fb, G)
+        funcs['sgv', k] = function.surfgrad(f, G)
+        if simplex_basis is not None:
+            with _quiet():
+                fh = numpy.stack([simplex_basis @ bnd.project(fi, onto=simplex_basis, geometry=G, degree=4) for fi in f])
+            funcs['fh', k] = fh
+            funcs['gh', k] = function.grad(fh, G)
+    names = list(funcs)
+    vals = dict(zip(names, exprs.with_timeout(120, smp.eval, [funcs[k] for k in names])))
+    fx0 = fsmp.eval(x0)
+    tables = []
+    for s in snaps:
+        t = {}
+        for r in s['rows']:
+            t.setdefault((frozenset(vec(v) for v in r['fv']), vec(r['x0'])), []).append(r)
+        tables.append(t)
+    seen = set()
+    for ie in range(smp.nelems):
+        ks = [key_of(p) for p in fx0[fsmp.getindex(ie)]]
+        if None in ks:
+            raise Fail('x0', 'vertex of boundary element {} is not on the model lattice'.format(ie))
+        fv = frozenset(ks)
+        for ip in smp.getindex(ie):
+            xk = key_of(vals['x0'][ip])
+            if xk is None:
+                raise Fail('x0', 'sample point {} of boundary element {} is not on the model lattice'.format(vals['x0'][ip], ie))
+            for k, (s, t) in enumerate(zip(snaps, tables)):
+                rs = t.get((fv, xk), [])
+                if len(rs) != 1:
+                    raise Fail('x0', 'the model has {} boundary-field points at x0={} of the facet nutils evaluates'.format(len(rs), [str(q) for q in xk]), dict(field=s['field']))
+                r = rs[0]
+                seen.add((k, fv, xk))
+                out['points'] += 1
+                fid = s['field']
+
+                def cmp(op, got, want, scale=1.):
+                    out['values'] += 1
+                    if not close(got, want, scale):
+                        fail(op, '{} at x0={} is {} but the model says {}'.format(op, [str(q) for q in xk], numpy.asarray(got).tolist(), numpy.asarray(want).tolist()),
+                             field=fid, P=s['P'], x0=[str(q) for q in xk], got=numpy.asarray(got).tolist(), want=numpy.asarray(want).tolist())
+                if k == 0:
+                    cmp('geom', vals['X'][ip], fl(r['X']))
+                    cmp('boundary-coords', vals['x0b'][ip], fl(r['x0']))
+                    nv = fl(r['nv'])
+                    cmp('normal*J', vals['nrm'][ip] * vals['J'][ip], nv, scale=float(numpy.abs(nv).max()))
+                fval = fl(r['f'])
+                tp = flm(r['tp'])          # tangents (rows)
+                gt = flm(r['gt'])          # per tangent: (grad f) t
+                sg = flm(r['sg'])
+                scale = float(max(1., numpy.abs(sg).max(initial=0.), numpy.abs(gt).max(initial=0.)))
+                cmp('boundary-field', vals['f', k][ip], fval)
+                cmp('boundary-field-grad-tangential', vals['g', k][ip] @ tp.T, gt.T, scale)
+                cmp('boundary-field-surfgrad', vals['sg', k][ip], sg, scale)
+                cmp('boundary-surfgrad', vals['sgv', k][ip], sg, scale)
+                if ('fh', k) in vals:
+                    cmp('boundary-basis-field', vals['fh', k][ip], fval)
+                    cmp('boundary-basis-grad-tangential', vals['gh', k][ip] @ tp.T, gt.T, scale)
+    for k, t in enumerate(tables):
+        if any((k, fv, xk) not in seen for fv, xk in t):
+            raise Fail('x0', 'points of the model are not evaluated by the boundary sample of nutils', dict(field=snaps[k]['field']))
+
+
+def _replay_integrals(name, topo, x0, G, fields, isvec, snaps, evs, out, fail, n, Gh=None):
     import numpy
     from nutils import function
     deg = 7
     J = function.J(G)
     nrm = function.normal(G)
     ints = dict(vol=J)
+    if Gh is not None:
+        ints['volh'] = function.J(Gh)
     for k, f in enumerate(fields):
         ints['int', k] = (function.div(f, G) if isvec[k] else f[0]) * J
     names = list(ints)
@@ -406,6 +565,8 @@ def _replay_integrals(name, topo, x0, G, fields, isvec, snaps, evs, out, fail, n
         big = max(1., abs(float(fr(t['vol']))), abs(float(fr(t['int']))))
         if k == 0:
             cmp('integral-J', tot['vol'], float(fr(t['vol'])), big)
+            if Gh is not None:
+                cmp('coarse-geometry-J', tot['volh'], float(fr(t['vol'])), big)
         cmp('integral-divJ' if isvec[k] else 'integral-fJ', tot['int', k], float(fr(t['int'])), big)
         if isvec[k]:
             cmp('boundary-flux', bfl[k], float(fr(t['flux'])), big)
@@ -460,7 +621,7 @@ def export_edge_table(meshes, maxlevel, refine_on):
                         numpy.asarray(transform.apply(chain, eref.vertices)), basis)
     # boundary and interface elements of the real topologies
     for name in sorted(meshes):
-        if name == 'prod':
+        if name in PRODUCTS:
             continue
         for level in range((maxlevel if name in refine_on else 0) + 1):
             topo, x0, _ = build_mesh(name, level)
@@ -493,7 +654,8 @@ def make_cfg(c, mutant='none', invariants=INVARIANTS, emit=True, table=True):
              '  MeshNames = ' + sset(c['MeshNames']), '  RefineOn = ' + sset(c['RefineOn']), '  MaxLevel = {}'.format(c['MaxLevel']),
              '  GeomIds = ' + iset(c['GeomIds']), '  FieldIds = ' + iset(c['FieldIds']),
              '  Lattice = {}'.format(c['Lattice']), '  Lattice3 = {}'.format(c['Lattice3']),
-             '  IntegrateOn = ' + sset(c['IntegrateOn']), '  GmMutant = "{}"'.format(mutant)]
+             '  IntegrateOn = ' + sset(c['IntegrateOn']), '  BFieldOn = ' + sset(c['BFieldOn']), '  RefineOnB = ' + sset(c['RefineOnB']),
+             '  ProdGeomIds = ' + iset(c['ProdGeomIds']), '  GmMutant = "{}"'.format(mutant)]
     lines += ['INVARIANT ' + i for i in invariants]
     if emit:
         lines.append('INVARIANT EmitEval')
@@ -505,22 +667,46 @@ def make_cfg(c, mutant='none', invariants=INVARIANTS, emit=True, table=True):
 
 def choose_constants(tier, rng):
     """core configuration plus seed-dependent extras"""
-    by_dims = {}
-    for g, d in GEOM_DIMS.items():
-        by_dims.setdefault(d, []).append(g)
     if tier == 'quick':
         # one affine orientation-reversing and one curved map per dimension, a separable one for the product mesh, a curve and a
         # surface are always there; the seed adds two more maps and picks the vector field of every dimension
         core = {2, 3, 6, 8, 10, 12, 14, 16, 20}
-        extra = set(rng.sample([g for g in GEOM_DIMS if g not in core], 2))
+        extra = set(rng.sample([g for g in range(1, 22) if g not in core], 2))
         fields = {rng.choice([2, 3]), rng.choice([7, 8, 10]), rng.choice([13, 14])}
-        return dict(MeshNames=['line', 'rect', 'tri', 'prod', 'box', 'tet'], RefineOn=['line', 'tri'], MaxLevel=1, GeomIds=sorted(core | extra),
-                    FieldIds=sorted(fields), Lattice=2, Lattice3=1, IntegrateOn=['line', 'rect', 'tri', 'tet'])
-    return dict(MeshNames=['line', 'rect', 'tri', 'prod', 'box', 'tet'], RefineOn=['line', 'rect', 'tri', 'tet', 'box'], MaxLevel=1, GeomIds=list(range(1, NGEOMS + 1)),
-                FieldIds=list(range(1, NFIELDS + 1)), Lattice=2, Lattice3=2, IntegrateOn=['line', 'rect', 'tri', 'box', 'tet'])
+        # a product of three one-dimensional spaces or of a two- and a one-dimensional space, with a separable map for the
+        # per-space operators
+        prod3d, sepgeom = rng.choice([('prod3', 22), ('prodm', 23)])
+        return dict(MeshNames=['line', 'rect', 'tri', 'prod', 'box', 'tet', prod3d], RefineOn=['line', 'tri'], MaxLevel=1, GeomIds=sorted(core | extra),
+                    FieldIds=sorted(fields), Lattice=2, Lattice3=1, IntegrateOn=['line', 'rect', 'tri', 'tet'],
+                    BFieldOn=['rect', 'tri', 'box', 'tet'], RefineOnB=['tet'], ProdGeomIds=[sepgeom])
+    return dict(MeshNames=['line', 'rect', 'tri', 'prod', 'box', 'tet', 'prod3', 'prodm'], RefineOn=['line', 'rect', 'tri', 'tet', 'box', 'prod'], MaxLevel=1,
+                GeomIds=list(range(1, NGEOMS + 1)), FieldIds=list(range(1, NFIELDS + 1)), Lattice=2, Lattice3=2, IntegrateOn=['line', 'rect', 'tri', 'box', 'tet'],
+                BFieldOn=['rect', 'tri', 'box', 'tet'], RefineOnB=[], ProdGeomIds=[])
+
+
+def _groups(meshes, quick):
+    """the state graphs of different base meshes are disjoint: they are explored by concurrent TLC runs"""
+    parts = [['line', 'rect', 'tri', 'prod'], ['box', 'tet', 'prod3', 'prodm']] if quick else [['line', 'rect', 'prod'], ['tri', 'prodm'], ['box', 'prod3'], ['tet']]
+    return [g for g in ([m for m in part if m in meshes] for part in parts) if g]
+
+
+# spec mutants: (name, constants, the invariants that must catch it)
+def _mutants(consts, quick):
+    tetb = dict(consts, MeshNames=['tet'], RefineOn=[], RefineOnB=['tet'], GeomIds=[12], FieldIds=[13], IntegrateOn=[], BFieldOn=['tet'], ProdGeomIds=[])
+    prod = dict(consts, MeshNames=['prod', 'prod3'], RefineOn=[], RefineOnB=[], GeomIds=[6, 12], FieldIds=[7, 13], IntegrateOn=[], BFieldOn=[], ProdGeomIds=[])
+    out = [('diag-gram', tetb, ['BoundaryFieldTangential'], {'BoundaryFieldTangential'}),
+           ('same-block', prod, ['ProductGradient'], {'ProductGradient'})]
+    if not quick:
+        small = dict(consts, MeshNames=['rect', 'tri'], RefineOn=['tri'], RefineOnB=[], GeomIds=[6, 8], FieldIds=[7], IntegrateOn=['rect', 'tri'], BFieldOn=['tri'], ProdGeomIds=[])
+        out += [('inv-transpose', small, INVARIANTS, {'GradIsDerivative', 'SurfGradProjects', 'NormalRoutes', 'PerSpace'}),
+                ('normal-inward', small, INVARIANTS, {'NormalOutward', 'NormalRoutes'}),
+                ('no-measure', small, INVARIANTS, {'DivTheoremElem', 'DivTheoremMesh'}),
+                ('no-chain', small, INVARIANTS, {'GradIsDerivative', 'DivTheoremElem', 'InterfaceOpposite', 'NormalRoutes', 'MeasureIsGram', 'DivTheoremMesh', 'BoundaryFieldTangential', 'BoundarySurfGrad'})]
+    return out
 
 
 def run(rep):
+    from concurrent.futures import ThreadPoolExecutor
     rng = random.Random(rep.seed)
     quick = rep.tier == 'quick'
     consts = choose_constants(rep.tier, rng)
@@ -541,27 +727,56 @@ def run(rep):
     rep.extra['edge_table_rows'] = len(table)
     rep.lap('edge table exported')
 
-    # ---- design spec + table verdicts, one exhaustive TLC run
-    res = tlc.run('MCGeometry', cfg_text=make_cfg(consts), tag='c08-design', workers=4, deadlock=False, env=dict(VF_TABLE=path),
-                  timeout=600 if quick else 3000, heap='4g' if quick else '8g')
-    rep.add_tlc(res, exhaustive=True)
-    if res.violated:
-        raise RuntimeError('design spec Geometry violates {}:\n{}'.format(res.violated, '\n'.join(res.error_trace[:40])))
-    rep.lap('TLC design run')
-    snaps = [e for e in res.emitted if 'stage' in e]
+    # ---- design spec + table verdicts: exhaustive TLC runs (one per group of base meshes, concurrently), and the spec mutants
+    groups = _groups(consts['MeshNames'], quick)
+    mutants = _mutants(consts, quick)
+
+    def design(ig):
+        return tlc.run('MCGeometry', cfg_text=make_cfg(dict(consts, MeshNames=groups[ig])), tag='c08-design-{}'.format(ig), workers=4, deadlock=False,
+                       env=dict(VF_TABLE=path), timeout=900 if quick else 3000, heap='3g' if quick else '6g')
+
+    def mutant(im):
+        mut, c, invs, expect = mutants[im]
+        return tlc.run('MCGeometry', cfg_text=make_cfg(c, mutant=mut, invariants=invs, emit=False, table=False), tag='c08-mutant-' + mut, workers=2, deadlock=False,
+                       env=dict(VF_TABLE=path), timeout=900, heap='2g')
+    with ThreadPoolExecutor(len(groups) + len(mutants)) as pool:
+        dfut = [pool.submit(design, ig) for ig in range(len(groups))]
+        mfut = [pool.submit(mutant, im) for im in range(len(mutants))]
+        results = [f.result() for f in dfut]
+        mresults = [f.result() for f in mfut]
+    emitted = []
+    for res in results:
+        rep.add_tlc(res, exhaustive=True)
+        if res.violated:
+            raise RuntimeError('design spec Geometry violates {}:\n{}'.format(res.violated, '\n'.join(res.error_trace[:40])))
+        emitted += res.emitted
+    for (mut, c, invs, expect), r in zip(mutants, mresults):
+        if r.violated not in expect:
+            raise RuntimeError('spec mutant {} is not caught by the expected invariants (TLC reports {})'.format(mut, r.violated))
+        rep.extra.setdefault('spec_mutants_caught', {})[mut] = r.violated
+    rep.lap('TLC design runs + spec mutants')
+    snaps = [e for e in emitted if 'stage' in e]
     # vacuity guard: action coverage counted from the emitted states (TLC -coverage runs out of memory on recursive operators)
     cover = dict(SetGeom=len(snaps), SetField=len(snaps),
                  Refine=sum(1 for s in snaps if s['level'] > 0 and s['stage'] != 'integrals'),
                  EvalInterior=sum(1 for s in snaps if s['stage'] == 'interior'), EvalBoundary=sum(1 for s in snaps if s['stage'] == 'boundary'),
-                 EvalInterfaces=sum(1 for s in snaps if s['stage'] == 'interfaces'), Integrate=sum(1 for s in snaps if s['stage'] == 'integrals' and s['level'] == 0),
-                 RefineIntegrals=sum(1 for e in res.emitted if e.get('tab') == 'refine-preserved'))
+                 EvalInterfaces=sum(1 for s in snaps if s['stage'] == 'interfaces'), EvalBoundaryField=sum(1 for s in snaps if s['stage'] == 'bfield'),
+                 Integrate=sum(1 for s in snaps if s['stage'] == 'integrals' and s['level'] == 0),
+                 RefineIntegrals=sum(1 for e in emitted if e.get('tab') == 'refine-preserved'))
     for a, cnt in cover.items():
         rep.actions[a] = rep.actions.get(a, 0) + cnt
     zero = [a for a in ACTIONS if rep.actions.get(a, 0) == 0]
     if zero:
         raise RuntimeError('vacuity: actions never taken: {}'.format(zero))
-    verdicts = [e for e in res.emitted if e.get('tab') == 'edge']
-    counts = {e['at']: e['n'] for e in res.emitted if e.get('tab') == 'edge-count'}
+    # ... and the cases the new identities are about are there: facets whose chain has non-orthogonal columns, products of 2 and 3 spaces
+    oblique = sum(1 for s in snaps if s['stage'] == 'bfield' for r in s['rows'] if not r['orth'])
+    nspaces = {len(s['sp']) for s in snaps if s['n'] == s['m']}
+    if not oblique or not {2, 3} & nspaces or 2 not in nspaces:
+        raise RuntimeError('vacuity: boundary-field points on facets with a non-diagonal Gram matrix: {}, numbers of spaces: {}'.format(oblique, sorted(nspaces)))
+    rep.extra['bfield_points_nonorthogonal_chain'] = oblique
+    rep.extra['product_states'] = {str(k): sum(1 for s in snaps if len(s['sp']) == k) for k in sorted(nspaces) if k > 1}
+    verdicts = [e for e in emitted if e.get('tab') == 'edge']
+    counts = {e['at']: e['n'] for e in emitted if e.get('tab') == 'edge-count'}
     if sum(counts.values()) != len(table):
         raise RuntimeError('edge table: TLC judged {} of {} rows'.format(sum(counts.values()), len(table)))
     for v in verdicts:
@@ -578,8 +793,8 @@ def run(rep):
         groups.setdefault((s['mesh'], s['level'], s['geom'], s['stage']), []).append(s)
     items = [(k[0], k[1], k[3], sorted(v, key=lambda s: s['field'])) for k, v in sorted(groups.items())]
     # heavy groups first
-    items.sort(key=lambda it: -sum(len(s['rows']) for s in it[3]))
-    outs = exprs.pmap(replay_group, items, nproc=4, chunksize=1)
+    items.sort(key=lambda it: -sum(len(s['rows']) for s in it[3]) * (MESH_DIM[it[0]] ** 2))
+    outs = exprs.pmap(replay_group, items, nproc=6 if quick else 8, chunksize=1)
     rep.lap('replayed')
     for it, o in zip(items, outs):
         if 'harness_error' in o:
@@ -594,28 +809,23 @@ def run(rep):
     rep.extra['states_replayed'] = len(snaps)
     rep.extra['points_compared'] = sum(o.get('points', 0) for o in outs)
     rep.extra['values_compared'] = sum(o.get('values', 0) for o in outs)
-    rep.extra['by_stage'] = {st: sum(1 for s in snaps if s['stage'] == st) for st in ('interior', 'boundary', 'interfaces', 'integrals')}
+    rep.extra['by_stage'] = {st: sum(1 for s in snaps if s['stage'] == st) for st in ('interior', 'boundary', 'interfaces', 'bfield', 'integrals')}
     if snaps:
         s = snaps[0]
         rep.sample(dict(mesh=s['mesh'], level=s['level'], geom=s['G'], field=s['P'], stage=s['stage'], first_row=sorted(s['rows'], key=json.dumps)[0] if s['rows'] else None))
+        b = [s for s in snaps if s['stage'] == 'bfield' and any(not r['orth'] for r in s['rows'])]
+        if b:
+            s = b[0]
+            rep.sample(dict(mesh=s['mesh'], level=s['level'], geom=s['G'], field=s['P'], stage=s['stage'], first_row=sorted((r for r in s['rows'] if not r['orth']), key=json.dumps)[0]))
     if not snaps:
         raise RuntimeError('TLC emitted no evaluation states')
-
-    # ---- spec mutants: the invariants are not vacuous (thorough tier; a cheap one in quick)
-    mutants = []
-    if not quick:
-        mutants += [('inv-transpose', {'GradIsDerivative', 'SurfGradProjects', 'NormalRoutes', 'PerSpace'}), ('normal-inward', {'NormalOutward', 'NormalRoutes'}), ('no-measure', {'DivTheoremElem', 'DivTheoremMesh'}), ('no-chain', {'GradIsDerivative', 'DivTheoremElem', 'InterfaceOpposite', 'NormalRoutes', 'MeasureIsGram', 'DivTheoremMesh'})]
-    small = dict(consts, MeshNames=['rect', 'tri'], RefineOn=['tri'], GeomIds=[6, 8], FieldIds=[7], IntegrateOn=['rect', 'tri'])
-    for mut, expect in mutants:
-        r = tlc.run('MCGeometry', cfg_text=make_cfg(small, mutant=mut, emit=False, table=False), tag='c08-mutant-' + mut, workers=2, deadlock=False, env=dict(VF_TABLE=path), timeout=600)
-        if r.violated not in expect:
-            raise RuntimeError('spec mutant {} is not caught by the expected invariants (TLC reports {})'.format(mut, r.violated))
-        rep.extra.setdefault('spec_mutants_caught', {})[mut] = r.violated
-    rep.lap('spec mutants')
-    rep.rule = ('cases = evaluation states of the Geometry machine (mesh, level, geometry map, field, interior|boundary|interfaces|integrals) replayed on nutils '
+    rep.rule = ('cases = evaluation states of the Geometry machine (mesh, level, geometry map, field, interior|boundary|interfaces|bfield|integrals) replayed on nutils '
                 '+ exported edge-transform / boundary-chain rows judged by TLC; non-trivial = geometry is not the identity / element dimension > 1')
-    rep.assumptions += ['geometry maps and fields are polynomials with small integer coefficients (21 maps of degree <= 2: affine, triangular, orientation reversing, '
-                        'non-constant Jacobian; curves in 2D, surfaces in 3D); points are the bezier lattice k/K of every element / facet',
+    rep.assumptions += ['geometry maps and fields are polynomials with small integer coefficients (23 maps of degree <= 2: affine, triangular, orientation reversing, '
+                        'non-constant Jacobian, separable; curves in 2D, surfaces in 3D); points are the bezier lattice k/K of every element / facet',
                         'unit normals and J are compared through n J = N dS (rational) and |n| = 1; J of manifolds through J^2',
                         'integrals: the model integrates exactly (Newton-Cotes / Duffy) where the integrand degree is <= 5; nutils integrates with Gauss degree 7',
-                        'the base geometry x0 returned by nutils.mesh (piecewise affine) is trusted to identify points; a wrong x0 is reported as mesh-binding / x0 violation']
+                        'the base geometry x0 returned by nutils.mesh (piecewise affine) is trusted to identify points; a wrong x0 is reported as mesh-binding / x0 violation',
+                        'fields on the boundary topology are p(G(a_e + A_e eta)) with eta = boundary.f_coords, e = boundary.f_index and the affine facet maps (a_e, A_e) fitted to x0 '
+                        '(plus an L2 projection on boundary.basis(std, 2) of simplex meshes where it is exact); only the tangential components of their gradient are compared '
+                        '(the normal component of the gradient of a function that is defined on the surface only is not defined by the property)']
